@@ -1,9 +1,31 @@
 #!/usr/bin/env python3
-"""setup helper: pre-compiles the harness binaries against /repo/include (content-hash cached)."""
+"""setup helper: pre-compiles the harness binaries against /repo/include (content-hash cached):
+the ASan+UBSan protocol harness every check uses, and the libstdc++ debug-mode build shared by the
+C07 / C15 / C17 checks."""
+import concurrent.futures as cf
 import os, sys
 sys.path.insert(0, os.path.dirname(os.path.dirname(os.path.abspath(__file__))))
 from vlib import core
-try:
-    print(core.build_harness())
-except core.BuildError as e:
-    print("harness build failed (checks will report it):\n" + e.output[-2000:])
+
+
+def main_harness():
+    try:
+        return core.build_harness()
+    except core.BuildError as e:
+        return "harness build failed (checks will report it):\n" + e.output[-2000:]
+
+
+def debug_harness():
+    try:
+        from vlib import special
+        cfg = special.CONFIGS_QUICK[1]
+        return core.build_harness(name="bgh17-" + cfg[0], flags=cfg[2], compiler=cfg[1], defines=cfg[3])
+    except core.BuildError as e:
+        return "debug-mode harness build failed (checks will report it):\n" + e.output[-2000:]
+    except Exception as e:   # never fail the setup
+        return f"debug-mode harness not prebuilt: {e}"
+
+
+with cf.ThreadPoolExecutor(max_workers=2) as ex:
+    for r in ex.map(lambda f: f(), [main_harness, debug_harness]):
+        print(r)
